@@ -21,6 +21,9 @@ const (
 	dummyAudioFilterStageDummy    = 3
 )
 
+// dummyAudioMaxGapMs 两个视频包之间最多补齐多长时间的静音包，超过则认为时间戳发生了跳跃
+const dummyAudioMaxGapMs = 10 * 1000
+
 type DummyAudioFilter struct {
 	uk          string
 	waitAudioMs int
@@ -138,6 +141,13 @@ func (filter *DummyAudioFilter) handleDummyStage(msg base.RtmpMsg) {
 		return
 	}
 
+	// 视频时间戳发生回退或大的跳跃时，不再补齐中间的静音包，以当前时间戳重新开始。
+	// 避免补齐的静音包数量（循环次数）由时间戳差值决定而没有上限。
+	if filter.prevAudioTs != math.MaxUint32 &&
+		(msg.Header.TimestampAbs < filter.prevAudioTs || msg.Header.TimestampAbs-filter.prevAudioTs > dummyAudioMaxGapMs) {
+		filter.prevAudioTs = math.MaxUint32
+	}
+
 	if filter.prevAudioTs == math.MaxUint32 {
 		ats := msg.Header.TimestampAbs
 		amsg := filter.makeOneAudio(ats)
@@ -146,10 +156,12 @@ func (filter *DummyAudioFilter) handleDummyStage(msg base.RtmpMsg) {
 		filter.prevAudioTs = ats
 	} else {
 		for {
-			ats := filter.prevAudioTs + filter.calcAudioDurationMs()
-			if ats > msg.Header.TimestampAbs {
+			// 注意，使用64位计算，避免时间戳接近32位最大值时回绕
+			ats64 := uint64(filter.prevAudioTs) + uint64(filter.calcAudioDurationMs())
+			if ats64 > uint64(msg.Header.TimestampAbs) {
 				break
 			}
+			ats := uint32(ats64)
 			amsg := filter.makeOneAudio(ats)
 			filter.onPopProxy(amsg)
 			filter.prevAudioTs = ats
